@@ -30,6 +30,16 @@ Universe3(r) == LET A == Frag[r.ia]  B == Frag[r.ib] IN
                      TakeS(Wit(A, Env, C, WitFuel), 25) \cup TakeS(Wit(B, Env, C, WitFuel), 25) \cup TakeS(Wit(C3, Env, C, WitFuel), 25) \cup Extras
                 ELSE Universe(A, B)
 
+\* does the term contain an intersection?  (the declarations of SemGen.Env contain none)
+RECURSIVE HasInter(_)
+HasInter(T) ==
+  CASE T.t = "inter" -> TRUE
+    [] T.t = "union" -> \E i \in DOMAIN T.ms : HasInter(T.ms[i])
+    [] T.t = "arr"   -> HasInter(T.e)
+    [] T.t = "tuple" -> \E i \in DOMAIN (T.es \o T.r) : HasInter((T.es \o T.r)[i])
+    [] T.t = "obj"   -> (\E i \in DOMAIN T.ps : HasInter(T.ps[i].ty)) \/ (\E i \in DOMAIN T.ix : HasInter(T.ix[i].vt))
+    [] OTHER -> FALSE
+
 Complaints(r) ==
   LET A == Frag[r.ia]  B == Frag[r.ib]  U == Universe3(r) IN
   UNION { LET ma == DMem(v, r.a, Atoms, open)  mb == DMem(v, r.b, Atoms, open) IN
@@ -37,7 +47,11 @@ Complaints(r) ==
           \cup (IF r.i.ok /\ DMem(v, r.i.st, Atoms, open) # (ma /\ mb) THEN {"intersect-is-not-set-intersection"} ELSE {})
           \cup (IF r.d.ok /\ DMem(v, r.d.st, Atoms, open) # (ma /\ ~mb) THEN {"diff-is-not-set-difference"} ELSE {})
           \cup (IF r.c.ok /\ DMem(v, r.c.st, Atoms, open) # ~ma THEN {"complement-is-not-set-complement"} ELSE {})
-          \cup (IF r.der = "A,B" /\ v # ABSENT /\ ma # SMem(v, A, Env, ~open) THEN {"operand-semtype-differs-from-its-source-type"} ELSE {})
+          \* (the exact reading of a decision diagram is taken atom by atom; for a conjunction of two mapping atoms that is not the
+          \* exact reading of the intersection type - { a?: number } & { [k: string]: number } - so intersections are compared in
+          \* the structural reading only)
+          \cup (IF r.der = "A,B" /\ v # ABSENT /\ (open \/ ~HasInter(A)) /\ ma # SMem(v, A, Env, ~open)
+                THEN {"operand-semtype-differs-from-its-source-type"} ELSE {})
         : v \in U, open \in BOOLEAN }
   \cup (IF ~(r.u.ok /\ r.i.ok /\ r.d.ok /\ r.c.ok) THEN {"operation-failed"} ELSE {})
 
